@@ -30,9 +30,17 @@ var logger = slog.New(slog.NewTextHandler(io.Discard, nil))
 type Case struct {
 	Cands    []string `json:"candidates"`
 	Acceptor bool     `json:"acceptor"` // run the accepting side and authenticate
+	// DelayMs: virtual milliseconds the handshake towards a candidate takes (slow paths), by
+	// position in Cands; missing = immediate
+	DelayMs []int `json:"delay_ms,omitempty"`
 }
 
-func (c Case) String() string { return fmt.Sprintf("cands=%v acceptor=%v", c.Cands, c.Acceptor) }
+func (c Case) String() string {
+	if len(c.DelayMs) > 0 {
+		return fmt.Sprintf("cands=%v delays=%vms acceptor=%v", c.Cands, c.DelayMs, c.Acceptor)
+	}
+	return fmt.Sprintf("cands=%v acceptor=%v", c.Cands, c.Acceptor)
+}
 
 const listenAddr = "10.0.0.1:5000"
 
@@ -58,6 +66,11 @@ func runCase(c Case) {
 	// every reachable candidate is another address of the same listener
 	for _, a := range []string{"10.0.0.2:5000", "[fd00::1]:5000", "192.168.1.7:5000"} {
 		quic.Net.Alias[a] = listenAddr
+	}
+	for i, ms := range c.DelayMs {
+		if i < len(c.Cands) && ms > 0 {
+			quic.Net.DialDelay[strings.TrimPrefix(c.Cands[i], "turn:")] = time.Duration(ms) * time.Millisecond
+		}
 	}
 	p := ice.VerifNewProber(logger)
 	var wg vrt.WaitGroup
@@ -212,7 +225,21 @@ func main() {
 		bound = 4
 	}
 	a1, a2, a3, bad := listenAddr, "10.0.0.2:5000", "[fd00::1]:5000", "10.9.9.9:1"
-	lists := [][]string{{a1}, {a1, a2}, {a1, a2, a3}, {a1, a1}, {a1, bad}, {bad, a1, a2}, {bad}, {"turn:" + a1}, {a1, "turn:" + a2}, {bad, "turn:" + a1}, {"not-an-address"}, {}}
+	type listT struct {
+		c []string
+		d []int
+	}
+	var lists []listT
+	for _, c := range [][]string{{a1}, {a1, a2}, {a1, a2, a3}, {a1, a1}, {a1, bad}, {bad, a1, a2}, {bad}, {"turn:" + a1}, {a1, "turn:" + a2}, {bad, "turn:" + a1}, {"not-an-address"}, {}} {
+		lists = append(lists, listT{c: c})
+	}
+	// slow paths: a handshake that takes seconds of virtual time (against the 5 s deadline of the
+	// caller, the library's handshake timeout and any budget between the direct and relay phase)
+	lists = append(lists,
+		listT{[]string{a1, a2}, []int{3300, 0}}, listT{[]string{a1, a2}, []int{1000, 1000}},
+		listT{[]string{a1, "turn:" + a2}, []int{3300, 900}}, listT{[]string{a1, "turn:" + a2}, []int{4500, 100}},
+		listT{[]string{bad, a1, "turn:" + a2}, []int{0, 3300, 900}}, listT{[]string{a1, "turn:" + a2}, []int{6000, 0}},
+		listT{[]string{"turn:" + a1, "turn:" + a2}, []int{2500, 0}})
 	budget := 170 * time.Second
 	if thorough {
 		budget = 28 * time.Minute
@@ -227,7 +254,7 @@ func main() {
 			if !vlib.Mine(n) {
 				continue
 			}
-			c := Case{Cands: l, Acceptor: acc}
+			c := Case{Cands: l.c, Acceptor: acc, DelayMs: l.d}
 			e := &vrt.Explorer{Cfg: cfg(), Bound: bound, Deadline: deadline, Root: func() { runCase(c) }}
 			e.Visit = func(x *vrt.Exec) bool {
 				check(c, x)
